@@ -207,17 +207,841 @@ Theorem mk_miset_drops {T} (l : list (Z * Z)) (m : frame T) :
   \/ fix_warn (combine (sortZ (map fst l)) (sortZ (map snd l))) = true ->
   exists out, mk_miset l m = Dropped out.
 Proof.
-  unfold mk_miset. intros [H|[H|H]]; rewrite H; [|rewrite andb_false_r|rewrite andb_false_r]; eauto.
+  unfold mk_miset. intros [H|[H|H]]; rewrite H; simpl; rewrite ?andb_false_r; simpl; eauto.
+Qed.
+
+Lemma strict_from_weaken l lo lo' : lo' <= lo -> strict_from lo l = true -> strict_from lo' l = true.
+Proof.
+  destruct l as [|x r]; simpl; [auto|]. intros H H1. apply andb_true_iff in H1. destruct H1 as [H1 H2].
+  apply andb_true_iff. split; [lia|exact H2].
 Qed.
 
 Lemma canon_strict A : forall lo, canon lo A -> strict_from lo (starts A) = true /\ strict_from lo (ends A) = true.
 Proof.
   induction A as [|[s e] r IH]; intros lo H; simpl; [auto|].
   destruct H as (H1 & H2 & H3). destruct (IH e H3) as [I1 I2].
-  assert (Hs : strict_from s (starts r) = true).
-  { clear - H2 H3. destruct r as [|[s' e'] r']; simpl in *; [reflexivity|].
-    destruct H3 as (H4 & H5 & H6). destruct (canon_strict_aux := I).
-    apply andb_true_iff. split; [lia|].
-    clear - I1. exact (proj1 (conj I I)). }
   split; apply andb_true_iff; split; try lia; auto.
+  apply (strict_from_weaken _ e); [lia|exact I1].
+Qed.
+
+Lemma canonical_strict A : canonical A -> strict_incb (starts A) = true /\ strict_incb (ends A) = true.
+Proof.
+  destruct A as [|[s e] r]; simpl; [auto|]. intros H.
+  pose proof (canonical_canon_tail _ _ _ H) as Hc. destruct H as (H1 & _ & _).
+  destruct (canon_strict r e Hc) as [I1 I2]. split; [|exact I2].
+  apply (strict_from_weaken _ e); [lia|exact I1].
+Qed.
+
+Lemma warn_go_canon A : forall lo, canon lo A ->
+  warn_go None A = false /\ (forall ns, ns < lo -> warn_go (Some (ns, lo, lo)) A = false).
+Proof.
+  induction A as [|[s e] r IH]; intros lo H.
+  - simpl. split; [reflexivity|]. intros ns Hns. destruct (ns <? lo) eqn:E; [reflexivity|lia].
+  - destruct H as (H1 & H2 & H3). destruct (IH e H3) as [I1 I2].
+    split.
+    + cbn [warn_go]. destruct (e <=? s) eqn:E; [lia|]. apply I2. exact H2.
+    + intros ns Hns. cbn [warn_go]. destruct (s <? lo) eqn:E; [lia|].
+      destruct (lo =? s) eqn:E3; [lia|]. destruct (ns <? lo) eqn:E4; [|lia].
+      destruct (e <=? s) eqn:E2; [lia|]. simpl. apply I2. exact H2.
+Qed.
+
+(* canonical intervals with a matching RangeIndex frame are attached as they are *)
+Theorem mk_miset_canonical {T} (A : iset) (m : frame T) :
+  canonical A -> labels m = rangeZ (length A) -> mk_miset A m = Kept A m.
+Proof.
+  intros Hc Hl. unfold mk_miset.
+  destruct (canonical_strict A Hc) as [S1 S2]. unfold starts, ends in *. rewrite S1, S2.
+  rewrite (sortedZ_sortZ_id _ (strict_incb_sorted _ S1)), (sortedZ_sortZ_id _ (strict_incb_sorted _ S2)), combine_fst_snd.
+  destruct (canonical_canon _ Hc) as [lo Hlo].
+  unfold fix_warn. rewrite (proj1 (warn_go_canon A lo Hlo)). simpl.
+  unfold fix_iset. rewrite (proj1 (fix_go_canon_id A lo Hlo)).
+  rewrite Hl. replace (list_eqb (rangeZ (length A)) (rangeZ (length A))) with true; [reflexivity|].
+  symmetry. apply list_eqb_eq. reflexivity.
+Qed.
+
+(* ================================================================== *)
+(* 3. IntervalSet.__getitem__                                          *)
+
+Definition wf_tiset {T} (o : tiset T) : Prop :=
+  canonical (fst o) /\ labels (snd o) = rangeZ (length (fst o)).
+
+Lemma wf_tiset_length {T} (o : tiset T) : wf_tiset o -> length (snd o) = length (fst o).
+Proof.
+  intros [_ H]. apply (f_equal (@length Z)) in H. unfold labels in H.
+  rewrite map_length, rangeZ_length in H. exact H.
+Qed.
+
+Lemma Forall2_nth_l {A B} (R : A -> B -> Prop) l1 l2 : Forall2 R l1 l2 ->
+  forall i x, nth_error l1 i = Some x -> exists y, nth_error l2 i = Some y /\ R x y.
+Proof.
+  induction 1 as [|a b l1 l2 Hab _ IH]; intros i x Hi; destruct i; simpl in *; try discriminate.
+  - inversion Hi. subst. eauto.
+  - eapply IH. exact Hi.
+Qed.
+
+(* every positional key: the result is the positional selection of intervals AND of rows with the
+   same positions *)
+Theorem iset_get_pos_kept {T} (o : tiset T) ps out m :
+  iset_get_pos o ps = Kept out m ->
+  exists iv tags, sel (fst o) ps = Some iv /\ sel (rows (snd o)) ps = Some tags
+                  /\ out = trim_touch iv /\ m = range_frame tags.
+Proof.
+  unfold iset_get_pos. destruct (sel (fst o) ps) as [iv|] eqn:E1; [|discriminate].
+  destruct (iloc (snd o) ps) as [m0|] eqn:E2; [|discriminate]. intros H.
+  apply mk_miset_kept in H. destruct H as (H1 & H2 & H3).
+  exists iv, (rows m0). repeat split; auto.
+  rewrite <- iloc_rows, E2. reflexivity.
+Qed.
+
+(* pointwise: output interval i IS input interval ps[i] (end possibly trimmed) and carries ITS tag *)
+Theorem iset_get_pos_pointwise {T} (o : tiset T) ps out m :
+  iset_get_pos o ps = Kept out m ->
+  forall i s e', nth_error out i = Some (s, e') ->
+    exists p e t, nth_error ps i = Some p /\ nth_error (fst o) p = Some (s, e) /\ (e' = e \/ e' = e - us)
+                  /\ nth_error (rows (snd o)) p = Some t /\ loc1 m (Z.of_nat i) = Some t.
+Proof.
+  intros H i s e' Hi. destruct (iset_get_pos_kept _ _ _ _ H) as (iv & tags & H1 & H2 & H3 & H4). subst.
+  destruct (Forall2_nth_l _ _ _ (trim_touch_spec iv) _ _ Hi) as ([s0 e] & Hiv & Hs & He). simpl in *. subst s0.
+  destruct (sel_nth _ _ _ H1 _ _ Hiv) as (p & Hp & Hpo).
+  assert (Hlen : (i < length tags)%nat).
+  { rewrite (sel_length _ _ _ H2), <- (sel_length _ _ _ H1). apply nth_error_Some. congruence. }
+  destruct (nth_error tags i) as [t|] eqn:Et; [|apply nth_error_None in Et; lia].
+  destruct (sel_nth _ _ _ H2 _ _ Et) as (p' & Hp' & Hpt).
+  assert (p' = p) by congruence. subst p'.
+  exists p, e, t. repeat split; auto.
+  rewrite loc1_range_frame. destruct (0 <=? Z.of_nat i) eqn:E; [|lia]. rewrite Nat2Z.id. exact Et.
+Qed.
+
+(* order-preserving keys (int, positive-step slice, mask, sorted list): nothing is trimmed or dropped *)
+Fixpoint inc_from (k : nat) (ps : list nat) : Prop :=
+  match ps with [] => True | p :: r => (k <= p)%nat /\ inc_from (S p) r end.
+
+Inductive sub {A} : list A -> list A -> Prop :=
+| sub_nil l : sub [] l
+| sub_skip x l1 l2 : sub l1 l2 -> sub l1 (x :: l2)
+| sub_take x l1 l2 : sub l1 l2 -> sub (x :: l1) (x :: l2).
+
+Lemma canon_sub iv A : sub iv A -> forall lo, canon lo A -> canon lo iv.
+Proof.
+  induction 1 as [l|[s e] l1 l2 _ IH|[s e] l1 l2 _ IH]; intros lo H.
+  - exact I.
+  - destruct H as (H1 & H2 & H3). apply IH. eapply canon_weaken; [|exact H3]. lia.
+  - destruct H as (H1 & H2 & H3). simpl. repeat split; auto.
+Qed.
+
+Lemma inc_from_S k ps : inc_from (S k) ps -> exists ps', ps = map S ps' /\ inc_from k ps'.
+Proof.
+  revert k. induction ps as [|p r IH]; intros k H.
+  - exists []. split; [reflexivity|exact I].
+  - destruct H as [H1 H2]. destruct p as [|p']; [lia|].
+    destruct (IH _ H2) as (r' & -> & Hr'). exists (p' :: r'). split; [reflexivity|].
+    simpl. split; [lia|exact Hr'].
+Qed.
+
+Lemma sel_cons_S {A} (x : A) l ps : sel (x :: l) (map S ps) = sel l ps.
+Proof. induction ps as [|p r IH]; simpl; [reflexivity|]. rewrite IH. reflexivity. Qed.
+
+Lemma sel_inc_sub {A} (l : list A) : forall ps o, inc_from 0 ps -> sel l ps = Some o -> sub o l.
+Proof.
+  induction l as [|x l' IH]; intros ps o Hinc H.
+  - destruct ps as [|p r]; simpl in H.
+    + inversion H. constructor.
+    + destruct p; discriminate.
+  - destruct ps as [|p r].
+    + inversion H. constructor.
+    + destruct Hinc as [_ Hinc]. destruct p as [|p'].
+      * destruct (inc_from_S _ _ Hinc) as (r' & -> & Hr').
+        simpl in H. rewrite sel_cons_S in H. destruct (sel l' r') as [o'|] eqn:E; [|discriminate].
+        inversion H. subst. apply sub_take. eapply IH; eassumption.
+      * destruct (inc_from_S _ _ Hinc) as (r' & -> & Hr').
+        change (S p' :: map S r') with (map S (p' :: r')) in H. rewrite sel_cons_S in H.
+        apply sub_skip. eapply (IH (p' :: r')); [|exact H]. simpl. split; [lia|exact Hr'].
+Qed.
+
+Lemma sel_same_length {A B} (l1 : list A) (l2 : list B) ps o1 :
+  length l1 = length l2 -> sel l1 ps = Some o1 -> exists o2, sel l2 ps = Some o2.
+Proof.
+  intros Hl. revert o1. induction ps as [|p r IH]; simpl; intros o1 H; [eauto|].
+  destruct (nth_error l1 p) eqn:E1; [|discriminate]. destruct (sel l1 r) eqn:E2; [|discriminate].
+  destruct (IH _ eq_refl) as [o2 ->].
+  destruct (nth_error l2 p) eqn:E3; [eauto|].
+  apply nth_error_None in E3. assert (p < length l1)%nat by (apply nth_error_Some; congruence). lia.
+Qed.
+
+Theorem iset_get_pos_increasing {T} (o : tiset T) ps iv :
+  wf_tiset o -> inc_from 0 ps -> sel (fst o) ps = Some iv ->
+  exists tags, sel (rows (snd o)) ps = Some tags /\ iset_get_pos o ps = Kept iv (range_frame tags).
+Proof.
+  intros Hwf Hinc Hsel. pose proof (wf_tiset_length _ Hwf) as Hlen. destruct Hwf as [Hc Hl].
+  destruct (sel_same_length (fst o) (snd o) ps iv (eq_sym Hlen) Hsel) as [m0 Hm0].
+  exists (rows m0). split; [rewrite <- iloc_rows; unfold iloc; rewrite Hm0; reflexivity|].
+  unfold iset_get_pos, iloc. rewrite Hsel, Hm0. unfold reset_index.
+  apply mk_miset_canonical.
+  - destruct (canonical_canon _ Hc) as [lo Hlo]. eapply canon_canonical.
+    eapply canon_sub; [|exact Hlo]. eapply sel_inc_sub; eassumption.
+  - rewrite labels_range_frame. unfold rows. rewrite map_length.
+    rewrite (sel_length _ _ _ Hm0), (sel_length _ _ _ Hsel). reflexivity.
+Qed.
+
+(* pd.Index / integer pd.Series keys use .loc: on the 0..n-1 index that IS the positional selection *)
+Theorem iset_get_labels_eq_pos {T} (o : tiset T) ks :
+  wf_tiset o -> Forall (fun k => 0 <= k) ks -> iset_get_labels o ks = iset_get_pos o (map Z.to_nat ks).
+Proof.
+  intros Hwf Hk. pose proof (wf_tiset_length _ Hwf) as Hlen. destruct Hwf as [Hc Hl].
+  unfold iset_get_labels, iset_get_pos.
+  replace (forallb (fun k => 0 <=? k) ks) with true
+    by (symmetry; apply forallb_forall; intros k Hin; rewrite Forall_forall in Hk; specialize (Hk _ Hin); lia).
+  destruct (sel (fst o) (map Z.to_nat ks)) as [iv|]; [|reflexivity].
+  assert (Hm : snd o = range_frame (rows (snd o))) by (apply frame_is_range; rewrite Hl, Hlen; reflexivity).
+  pose proof (loc_range_frame (rows (snd o)) ks Hk) as H1. rewrite <- Hm in H1.
+  pose proof (iloc_rows (snd o) (map Z.to_nat ks)) as H2. rewrite <- H1 in H2.
+  destruct (loc (snd o) ks) as [m1|], (iloc (snd o) (map Z.to_nat ks)) as [m2|]; simpl in H2; try discriminate; [|reflexivity].
+  inversion H2. unfold reset_index. rewrite H0. reflexivity.
+Qed.
+
+(* boolean pd.Series: values by position, metadata aligned by label.  With the mask's index equal
+   to the object's index the two coincide ... *)
+Lemma sel_filter_idx {A} (suf : list A) : forall pre bits,
+  length bits = length suf ->
+  sel (pre ++ suf) (filter_idx (fun b : bool => b) (length pre) bits) = Some (map snd (filter fst (combine bits suf))).
+Proof.
+  induction suf as [|t r IH]; intros pre bits Hl; destruct bits as [|b br]; simpl in Hl; try discriminate; [reflexivity|].
+  assert (Hr : sel (pre ++ t :: r) (filter_idx (fun b : bool => b) (S (length pre)) br) = Some (map snd (filter fst (combine br r)))).
+  { replace (pre ++ t :: r) with ((pre ++ [t]) ++ r) by (rewrite <- app_assoc; reflexivity).
+    replace (S (length pre)) with (length (pre ++ [t])) by (rewrite app_length; simpl; lia).
+    apply IH. lia. }
+  simpl. destruct b; simpl.
+  - rewrite nth_error_app2, Nat.sub_diag by lia. simpl. rewrite Hr. reflexivity.
+  - exact Hr.
+Qed.
+
+Lemma loc_mask_seq {T} (suf : list T) : forall a bits mask,
+  length bits = length suf ->
+  (forall j, (j < length suf)%nat -> lookup mask (Z.of_nat (a + j)) = nth_error bits j) ->
+  option_map rows (loc_mask (combine (map Z.of_nat (seq a (length suf))) suf) mask)
+  = Some (map snd (filter fst (combine bits suf))).
+Proof.
+  induction suf as [|t r IH]; intros a bits mask Hl Hm; destruct bits as [|b br]; simpl in Hl; try discriminate; [reflexivity|].
+  simpl. pose proof (Hm 0%nat ltac:(simpl; lia)) as H0. rewrite Nat.add_0_r in H0. simpl in H0. rewrite H0.
+  specialize (IH (S a) br mask ltac:(lia)).
+  assert (Hm' : forall j, (j < length r)%nat -> lookup mask (Z.of_nat (S a + j)) = nth_error br j).
+  { intros j Hj. specialize (Hm (S j) ltac:(simpl; lia)). simpl in Hm. rewrite <- Hm. f_equal. lia. }
+  specialize (IH Hm').
+  destruct (loc_mask (combine (map Z.of_nat (seq (S a) (length r))) r) mask) as [o'|]; simpl in IH; [|discriminate].
+  inversion IH. destruct b; simpl; rewrite H1; reflexivity.
+Qed.
+
+Theorem iset_get_bseries_aligned {T} (o : tiset T) mask :
+  wf_tiset o -> map fst mask = rangeZ (length (fst o)) ->
+  iset_get_bseries o mask = iset_get_pos o (mask_pos (map snd mask)).
+Proof.
+  intros Hwf Hmask. pose proof (wf_tiset_length _ Hwf) as Hlen. destruct Hwf as [Hc Hl].
+  assert (Hml : length mask = length (fst o)).
+  { apply (f_equal (@length Z)) in Hmask. rewrite map_length, rangeZ_length in Hmask. exact Hmask. }
+  unfold iset_get_bseries, iset_get_pos. rewrite Hml, Nat.eqb_refl.
+  destruct (sel (fst o) (mask_pos (map snd mask))) as [iv|]; [|reflexivity].
+  assert (Hm : snd o = range_frame (rows (snd o))) by (apply frame_is_range; rewrite Hl, Hlen; reflexivity).
+  assert (Hmk : mask = range_frame (map snd mask)).
+  { apply (frame_is_range mask). unfold labels. rewrite Hmask, Hml. reflexivity. }
+  set (ts := rows (snd o)) in *. set (bits := map snd mask) in *.
+  assert (Hbl : length bits = length ts) by (unfold bits, ts, rows; rewrite !map_length; lia).
+  assert (H1 : option_map rows (loc_mask (snd o) mask) = Some (map snd (filter fst (combine bits ts)))).
+  { rewrite Hm. unfold range_frame at 1. unfold rangeZ. apply loc_mask_seq; [exact Hbl|].
+    intros j Hj. simpl. unfold lookup. rewrite Hmk, loc1_range_frame.
+    destruct (0 <=? Z.of_nat j) eqn:E; [|lia]. rewrite Nat2Z.id. reflexivity. }
+  assert (H2 : option_map rows (iloc (snd o) (mask_pos bits)) = Some (map snd (filter fst (combine bits ts)))).
+  { rewrite iloc_rows. fold ts. unfold mask_pos. apply (sel_filter_idx ts [] bits Hbl). }
+  destruct (loc_mask (snd o) mask) as [m1|]; simpl in H1; [|discriminate].
+  destruct (iloc (snd o) (mask_pos bits)) as [m2|]; simpl in H2; [|discriminate].
+  unfold reset_index. congruence.
+Qed.
+
+(* ... but a mask whose index is in another order (a condition on sorted metadata) is applied by
+   position to the intervals and by label to the metadata: the faithful model attaches a wrong tag *)
+Theorem iset_get_bseries_refuted :
+  exists (o : tiset Z) mask out m,
+    wf_tiset o /\ Permutation (map fst mask) (rangeZ (length (fst o)))
+    /\ iset_get_bseries o mask = Kept out m
+    /\ exists s e t p, nth_error out 0 = Some (s, e) /\ loc1 m 0 = Some t
+                       /\ nth_error (fst o) p = Some (s, e) /\ nth_error (rows (snd o)) p <> Some t.
+Proof.
+  exists ([(0, 10); (20, 30)], range_frame [100; 200]), [(1, true); (0, false)], [(0, 10)], [(0, 200)].
+  split; [split; [simpl; lia|reflexivity]|]. split; [apply perm_swap|]. split; [vm_compute; reflexivity|].
+  exists 0, 10, 200, 0%nat. repeat split; try reflexivity. simpl. intros H. discriminate H.
+Qed.
+
+(* ================================================================== *)
+(* 4. intersect / set_diff: outputs carry the rows of the parents that contain them              *)
+
+Lemma map_to_nat_of_nat l : map Z.to_nat (map Z.of_nat l) = l.
+Proof. induction l as [|x r IH]; simpl; [reflexivity|]. rewrite Nat2Z.id, IH. reflexivity. Qed.
+
+Lemma loc_range_some {T} (ts : list T) (ix : list nat) :
+  Forall (fun i => (i < length ts)%nat) ix ->
+  exists m tags, loc (range_frame ts) (map Z.of_nat ix) = Some m /\ rows m = tags /\ sel ts ix = Some tags.
+Proof.
+  intros H. destruct (sel_some ts ix H) as [tags Ht].
+  assert (Hk : Forall (fun k => 0 <= k) (map Z.of_nat ix)).
+  { apply Forall_forall. intros k Hin. apply in_map_iff in Hin. destruct Hin as (i & <- & _). lia. }
+  pose proof (loc_range_frame ts _ Hk) as H1. rewrite map_to_nat_of_nat, Ht in H1.
+  destruct (loc (range_frame ts) (map Z.of_nat ix)) as [m|]; simpl in H1; [|discriminate].
+  inversion H1. eauto.
+Qed.
+
+Lemma wf_tiset_range {T} (o : tiset T) : wf_tiset o -> snd o = range_frame (rows (snd o)).
+Proof.
+  intros Hwf. pose proof (wf_tiset_length _ Hwf) as Hlen. destruct Hwf as [_ Hl].
+  apply frame_is_range. rewrite Hl, Hlen. reflexivity.
+Qed.
+
+Lemma nth_error_combine {A B} (l1 : list A) (l2 : list B) i x y :
+  nth_error l1 i = Some x -> nth_error l2 i = Some y -> nth_error (combine l1 l2) i = Some (x, y).
+Proof.
+  revert l2 i. induction l1 as [|a r IH]; intros l2 i H1 H2; destruct i, l2; simpl in *; try discriminate.
+  - inversion H1. inversion H2. reflexivity.
+  - apply IH; assumption.
+Qed.
+
+Lemma nth_error_map_inv {A B} (f : A -> B) l i y : nth_error (map f l) i = Some y ->
+  exists x, nth_error l i = Some x /\ f x = y.
+Proof. rewrite nth_error_map. destruct (nth_error l i); simpl; intros H; inversion H; eauto. Qed.
+
+Lemma sel_nth_fwd {A} (l : list A) ps o : sel l ps = Some o ->
+  forall i p, nth_error ps i = Some p -> exists x, nth_error o i = Some x /\ nth_error l p = Some x.
+Proof.
+  revert o. induction ps as [|p0 r IH]; simpl; intros o H i p Hi; [destruct i; discriminate|].
+  destruct (nth_error l p0) eqn:E; [|discriminate]. destruct (sel l r) eqn:E2; [|discriminate].
+  inversion H. subst. destruct i; simpl in *.
+  - inversion Hi. subst. eauto.
+  - eapply IH; [reflexivity|exact Hi].
+Qed.
+
+Lemma loc1_range_frame_nat {T} (ts : list T) i : loc1 (range_frame ts) (Z.of_nat i) = nth_error ts i.
+Proof. rewrite loc1_range_frame. destruct (0 <=? Z.of_nat i) eqn:E; [|lia]. rewrite Nat2Z.id. reflexivity. Qed.
+
+Theorem iset_intersect_parents {T U} (a : tiset T) (b : tiset U) :
+  wf_tiset a -> wf_tiset b ->
+  exists m, iset_intersect a b = Kept (k_inter (fst a) (fst b)) m
+    /\ forall k s e, nth_error (k_inter (fst a) (fst b)) k = Some (s, e) ->
+         exists i j s1 e1 s2 e2 t u,
+           nth_error (fst a) i = Some (s1, e1) /\ nth_error (fst b) j = Some (s2, e2)
+           /\ s = Z.max s1 s2 /\ e = Z.min e1 e2 /\ s < e
+           /\ nth_error (rows (snd a)) i = Some t /\ nth_error (rows (snd b)) j = Some u
+           /\ loc1 m (Z.of_nat k) = Some (t, u).
+Proof.
+  intros Ha Hb. pose proof (wf_tiset_length _ Ha) as La. pose proof (wf_tiset_length _ Hb) as Lb.
+  pose proof (inter_parents (fst a) (fst b) (proj1 Ha) (proj1 Hb)) as HP.
+  set (r := k_inter_meta (fst a) (fst b)) in *.
+  assert (Hia : Forall (fun i => (i < length (rows (snd a)))%nat) (map (fun x => fst (snd x)) r)).
+  { apply Forall_forall. intros i Hin. apply in_map_iff in Hin. destruct Hin as ([[s e] [i0 j0]] & <- & Hin).
+    rewrite Forall_forall in HP. specialize (HP _ Hin). cbn in HP. destruct HP as (s1 & e1 & s2 & e2 & H1 & _).
+    unfold rows. rewrite map_length, La. apply nth_error_Some. simpl. congruence. }
+  assert (Hib : Forall (fun i => (i < length (rows (snd b)))%nat) (map (fun x => snd (snd x)) r)).
+  { apply Forall_forall. intros i Hin. apply in_map_iff in Hin. destruct Hin as ([[s e] [i0 j0]] & <- & Hin).
+    rewrite Forall_forall in HP. specialize (HP _ Hin). cbn in HP. destruct HP as (s1 & e1 & s2 & e2 & _ & H2 & _).
+    unfold rows. rewrite map_length, Lb. apply nth_error_Some. simpl. congruence. }
+  destruct (loc_range_some _ _ Hia) as (m1 & ta & L1 & R1 & S1).
+  destruct (loc_range_some _ _ Hib) as (m2 & tb & L2 & R2 & S2).
+  rewrite <- (wf_tiset_range _ Ha) in L1. rewrite <- (wf_tiset_range _ Hb) in L2.
+  exists (range_frame (combine ta tb)). split.
+  - unfold iset_intersect. fold r. rewrite map_map in L1, L2. rewrite L1, L2, R1, R2.
+    apply mk_miset_canonical.
+    + apply inter_raw_canonical; [exact (proj1 Ha)|exact (proj1 Hb)].
+    + rewrite labels_range_frame, combine_length, (sel_length _ _ _ S1), (sel_length _ _ _ S2), !map_length, Nat.min_id.
+      unfold k_inter. fold r. rewrite map_length. reflexivity.
+  - intros k s e Hk. unfold k_inter in Hk. fold r in Hk.
+    destruct (nth_error_map_inv _ _ _ _ Hk) as ([[s' e'] [i j]] & Hr & Heq). simpl in Heq. inversion Heq. subst s' e'.
+    rewrite Forall_forall in HP. pose proof (HP _ (nth_error_In _ _ Hr)) as HPk. cbn in HPk.
+    destruct HPk as (s1 & e1 & s2 & e2 & H1 & H2 & H3 & H4 & H5).
+    assert (Hi : nth_error (map (fun x => fst (snd x)) r) k = Some i) by (rewrite nth_error_map, Hr; reflexivity).
+    assert (Hj : nth_error (map (fun x => snd (snd x)) r) k = Some j) by (rewrite nth_error_map, Hr; reflexivity).
+    destruct (sel_nth_fwd _ _ _ S1 _ _ Hi) as (t & Ht1 & Ht2).
+    destruct (sel_nth_fwd _ _ _ S2 _ _ Hj) as (u & Hu1 & Hu2).
+    exists i, j, s1, e1, s2, e2, t, u. repeat split; auto.
+    rewrite loc1_range_frame_nat. apply nth_error_combine; assumption.
+Qed.
+
+Theorem iset_set_diff_parents {T} (a : tiset T) (B : iset) :
+  wf_tiset a -> canonical B ->
+  exists m, iset_set_diff a B = Kept (k_diff (fst a) B) m
+    /\ forall k s e, nth_error (k_diff (fst a) B) k = Some (s, e) ->
+         exists i s1 e1 t,
+           nth_error (fst a) i = Some (s1, e1) /\ s1 <= s /\ e <= e1 /\ s < e
+           /\ nth_error (rows (snd a)) i = Some t /\ loc1 m (Z.of_nat k) = Some t.
+Proof.
+  intros Ha Hb. pose proof (wf_tiset_length _ Ha) as La.
+  pose proof (diff_parents (fst a) B (proj1 Ha) Hb) as HP.
+  set (r := k_diff_meta (fst a) B) in *.
+  assert (Hia : Forall (fun i => (i < length (rows (snd a)))%nat) (map (fun x => snd x) r)).
+  { apply Forall_forall. intros i Hin. apply in_map_iff in Hin. destruct Hin as ([[s e] i0] & <- & Hin).
+    rewrite Forall_forall in HP. specialize (HP _ Hin). cbn in HP. destruct HP as (I & H1 & _).
+    unfold rows. rewrite map_length, La. apply nth_error_Some. simpl. congruence. }
+  destruct (loc_range_some _ _ Hia) as (m1 & ta & L1 & R1 & S1).
+  rewrite <- (wf_tiset_range _ Ha) in L1.
+  exists (range_frame ta). split.
+  - unfold iset_set_diff. fold r. rewrite map_map in L1. rewrite L1. unfold reset_index. rewrite R1.
+    apply mk_miset_canonical.
+    + apply diff_raw_canonical; [exact (proj1 Ha)|exact Hb].
+    + rewrite labels_range_frame, (sel_length _ _ _ S1), !map_length.
+      unfold k_diff. fold r. rewrite map_length. reflexivity.
+  - intros k s e Hk. unfold k_diff in Hk. fold r in Hk.
+    destruct (nth_error_map_inv _ _ _ _ Hk) as ([[s' e'] i] & Hr & Heq). simpl in Heq. inversion Heq. subst s' e'.
+    rewrite Forall_forall in HP. pose proof (HP _ (nth_error_In _ _ Hr)) as HPk. cbn in HPk.
+    destruct HPk as ([s1 e1] & H1 & [H2 H3] & H4). simpl in H2, H3.
+    assert (Hi : nth_error (map (fun x => snd x) r) k = Some i) by (rewrite nth_error_map, Hr; reflexivity).
+    destruct (sel_nth_fwd _ _ _ S1 _ _ Hi) as (t & Ht1 & Ht2).
+    exists i, s1, e1, t. repeat split; auto.
+    rewrite loc1_range_frame_nat. exact Ht1.
+Qed.
+
+(* operations that build their result without metadata never return any *)
+Theorem drops_not_misattaches {T U} (a : tiset T) (b : tiset U) thr :
+  (exists iv, iset_union_meta a b = Dropped iv)
+  /\ (forall iv m, iset_time_span a <> Kept iv m)
+  /\ (exists iv, iset_merge_close a thr = Dropped iv).
+Proof.
+  split; [unfold iset_union_meta; eauto|]. split.
+  - intros iv m. unfold iset_time_span. destruct (fst a) as [|[s e] r]; discriminate.
+  - unfold iset_merge_close. destruct (fst a) as [|[s e] r]; eauto.
+Qed.
+
+(* ================================================================== *)
+(* 5. split: every piece lies inside the parent whose row it repeats                             *)
+
+Lemma canon_app L1 : forall lo hi L2,
+  canon lo L1 -> Forall (fun p => snd p <= hi) L1 -> lo <= hi -> canon hi L2 -> canon lo (L1 ++ L2).
+Proof.
+  induction L1 as [|[s e] r IH]; intros lo hi L2 H1 HF Hle H2; simpl.
+  - eapply canon_weaken; [|exact H2]. exact Hle.
+  - destruct H1 as (A1 & A2 & A3). inversion HF as [|? ? Hh Ht]. subst. simpl in Hh.
+    repeat split; auto. eapply IH; eauto.
+Qed.
+
+Definition trim_piece (p : Z * Z) : Z * Z := (fst p, snd p - us).
+
+Lemma pieces_facts fuel : forall s e b lo, us < b -> lo < s ->
+  let L := map trim_piece (filter (fun p => b <=? snd p - fst p) (pieces fuel s e b)) in
+  canon lo L /\ Forall (fun p => s <= fst p /\ snd p + us <= e /\ fst p < snd p) L.
+Proof.
+  induction fuel as [|f IH]; intros s e b lo Hb Hlo; simpl; [split; [exact I|constructor]|].
+  destruct (s <? e) eqn:E; simpl; [|split; [exact I|constructor]].
+  assert (Hus : 0 < us) by (unfold us; lia).
+  destruct (b <=? Z.min (s + b) e - s) eqn:K; simpl.
+  - destruct (IH (s + b) e b (Z.min (s + b) e - us) Hb ltac:(lia)) as [I1 I2].
+    split.
+    + repeat split; try lia. exact I1.
+    + constructor; [simpl; lia|]. eapply Forall_impl'; [|exact I2]. simpl. intros p. lia.
+  - destruct (IH (s + b) e b lo Hb ltac:(lia)) as [I1 I2].
+    split; [exact I1|]. eapply Forall_impl'; [|exact I2]. simpl. intros p. lia.
+Qed.
+
+Lemma map_fst_pieces (X : list (Z * Z)) (i : nat) :
+  map fst (map (fun p => (fst p, snd p - us, i)) X) = map trim_piece X.
+Proof. rewrite map_map. apply map_ext. intros p. reflexivity. Qed.
+
+Lemma split_go_canon A : forall lo i b, canon lo A -> us < b -> canon lo (map fst (split_go A i b)).
+Proof.
+  induction A as [|[s e] r IH]; intros lo i b H Hb; simpl; [exact I|].
+  destruct H as (H1 & H2 & H3). rewrite map_app.
+  apply (canon_app _ lo e).
+  - destruct (b <? e - s); [|exact I]. rewrite map_fst_pieces. unfold split_one.
+    apply (proj1 (pieces_facts _ s e b lo Hb H1)).
+  - destruct (b <? e - s); [|constructor]. rewrite map_fst_pieces. unfold split_one.
+    eapply Forall_impl'; [|exact (proj2 (pieces_facts _ s e b lo Hb H1))]. simpl. intros p.
+    assert (0 < us) by (unfold us; lia). lia.
+  - lia.
+  - apply IH; assumption.
+Qed.
+
+Definition split_parent_ok (A : iset) (i : nat) (r : Z * Z * nat) : Prop :=
+  let '(s, e, i0) := r in
+  (i <= i0)%nat /\ exists s0 e0, nth_error A (i0 - i) = Some (s0, e0) /\ s0 <= s /\ e + us <= e0 /\ s < e.
+
+Lemma split_go_parents A : forall i b, us < b -> Forall (split_parent_ok A i) (split_go A i b).
+Proof.
+  induction A as [|[s e] r IH]; intros i b Hb; simpl; [constructor|].
+  apply Forall_app. split.
+  - destruct (b <? e - s); [|constructor]. apply Forall_forall. intros x Hin.
+    apply in_map_iff in Hin. destruct Hin as (p & <- & Hp).
+    pose proof (proj2 (pieces_facts (Z.to_nat ((e - s) / b + 1)) s e b (s - 1) Hb ltac:(lia))) as HF.
+    rewrite Forall_forall in HF. specialize (HF (trim_piece p) (in_map _ _ _ Hp)). simpl in HF.
+    split; [lia|]. exists s, e. rewrite Nat.sub_diag. simpl. repeat split; lia.
+  - eapply Forall_impl'; [|exact (IH (S i) b Hb)]. intros [[s' e'] i0]. simpl.
+    intros (H1 & s0 & e0 & H2 & H3). split; [lia|]. exists s0, e0.
+    replace (i0 - i)%nat with (S (i0 - S i)) by lia. simpl. exact (conj H2 H3).
+Qed.
+
+Theorem iset_split_parents {T} (a : tiset T) b :
+  wf_tiset a -> us < b -> fst a <> [] ->
+  exists m, iset_split a b = Kept (map fst (split_meta (fst a) b)) m
+    /\ forall k s e, nth_error (map fst (split_meta (fst a) b)) k = Some (s, e) ->
+         exists i s1 e1 t,
+           nth_error (fst a) i = Some (s1, e1) /\ s1 <= s /\ e + us <= e1 /\ s < e
+           /\ nth_error (rows (snd a)) i = Some t /\ loc1 m (Z.of_nat k) = Some t.
+Proof.
+  intros Ha Hb Hne. pose proof (wf_tiset_length _ Ha) as La.
+  pose proof (split_go_parents (fst a) 0 b Hb) as HP. fold (split_meta (fst a) b) in HP.
+  set (r := split_meta (fst a) b) in *.
+  assert (Hia : Forall (fun i => (i < length (rows (snd a)))%nat) (map (fun x => snd x) r)).
+  { apply Forall_forall. intros i Hin. apply in_map_iff in Hin. destruct Hin as ([[s e] i0] & <- & Hin).
+    rewrite Forall_forall in HP. specialize (HP _ Hin). cbn in HP. destruct HP as (_ & s0 & e0 & H1 & _).
+    rewrite Nat.sub_0_r in H1. unfold rows. rewrite map_length, La. apply nth_error_Some. simpl. congruence. }
+  destruct (loc_range_some _ _ Hia) as (m1 & ta & L1 & R1 & S1).
+  rewrite <- (wf_tiset_range _ Ha) in L1.
+  assert (Hcan : canonical (map fst r)).
+  { destruct (canonical_canon _ (proj1 Ha)) as [lo Hlo]. eapply canon_canonical.
+    unfold r, split_meta. apply split_go_canon; eassumption. }
+  exists (range_frame ta). split.
+  - unfold iset_split. destruct (fst a) as [|x A'] eqn:EA; [congruence|]. fold r.
+    rewrite map_map in L1. rewrite L1. unfold reset_index. rewrite R1.
+    apply mk_miset_canonical.
+    + exact Hcan.
+    + rewrite labels_range_frame, (sel_length _ _ _ S1), !map_length. reflexivity.
+  - intros k s e Hk.
+    destruct (nth_error_map_inv _ _ _ _ Hk) as ([[s' e'] i] & Hr & Heq). simpl in Heq. inversion Heq. subst s' e'.
+    rewrite Forall_forall in HP. pose proof (HP _ (nth_error_In _ _ Hr)) as HPk. cbn in HPk.
+    destruct HPk as (_ & s1 & e1 & H1 & H2 & H3 & H4). rewrite Nat.sub_0_r in H1.
+    assert (Hi : nth_error (map (fun x => snd x) r) k = Some i) by (rewrite nth_error_map, Hr; reflexivity).
+    destruct (sel_nth_fwd _ _ _ S1 _ _ Hi) as (t & Ht1 & Ht2).
+    exists i, s1, e1, t. repeat split; auto.
+    rewrite loc1_range_frame_nat. exact Ht1.
+Qed.
+
+(* ================================================================== *)
+(* 6. TsdFrame columns / TsGroup members: (label, data, metadata row) triples                     *)
+
+Definition triples {D T} (o : list (Z * D) * frame T) : list (Z * D * option T) :=
+  map (fun c => (fst c, snd c, loc1 (snd o) (fst c))) (fst o).
+
+Definition wf_tframe {D T} (o : tframe D T) : Prop :=
+  NoDup (map fst (fst o)) /\ labels (snd o) = map fst (fst o).
+
+Lemma sel_incl {A} (l : list A) ps o : sel l ps = Some o -> incl o l.
+Proof.
+  intros H x Hin. destruct (In_nth_error _ _ Hin) as [i Hi].
+  destruct (sel_nth _ _ _ H _ _ Hi) as (p & _ & Hp). eapply nth_error_In. exact Hp.
+Qed.
+
+(* under wf, "the row found by label" is "the row at the column's position" *)
+Lemma triples_positional {D T} (o : tframe D T) : wf_tframe o ->
+  forall p l d, nth_error (fst o) p = Some (l, d) ->
+    exists t, nth_error (snd o) p = Some (l, t) /\ nth_error (triples o) p = Some (l, d, Some t).
+Proof.
+  intros [Hn Hl] p l d Hp.
+  assert (H1 : nth_error (labels (snd o)) p = Some l) by (rewrite Hl, nth_error_map, Hp; reflexivity).
+  unfold labels in H1. destruct (nth_error_map_inv _ _ _ _ H1) as ([l' t] & Hm & Heq). simpl in Heq. subst l'.
+  exists t. split; [exact Hm|]. unfold triples. rewrite nth_error_map, Hp. simpl.
+  rewrite (loc1_nodup_In (snd o) l t); [reflexivity| |eapply nth_error_In; exact Hm].
+  rewrite Hl. exact Hn.
+Qed.
+
+Lemma mk_tframe_some {D T} (cs : list (Z * D)) (m : frame T) o : mk_tframe cs m = Some o ->
+  o = (cs, m) /\ labels m = map fst cs.
+Proof.
+  unfold mk_tframe. destruct (list_eqb (labels m) (map fst cs)) eqn:E; [|discriminate].
+  intros H. inversion H. split; [reflexivity|]. apply list_eqb_eq. exact E.
+Qed.
+
+(* every positional column key (list in any order, slice, mask): output column i is input column
+   ps[i] with ITS label, ITS data and ITS metadata row *)
+Theorem frame_get_pos_attach {D T} (o o' : tframe D T) ps :
+  frame_get_pos o ps = Some o' ->
+  sel (triples o) ps = Some (triples o') /\ labels (snd o') = map fst (fst o').
+Proof.
+  unfold frame_get_pos. destruct (sel (fst o) ps) as [cs|] eqn:E1; [|discriminate].
+  destruct (loc (snd o) (map fst cs)) as [m|] eqn:E2; [|discriminate]. intros H.
+  destruct (mk_tframe_some _ _ _ H) as [-> Hl]. split; [|exact Hl].
+  unfold triples at 1. rewrite sel_map, E1. simpl. f_equal. unfold triples. simpl.
+  apply map_ext_in. intros c Hc. f_equal. symmetry. eapply loc1_loc; [exact E2|].
+  apply in_map. exact Hc.
+Qed.
+
+Lemma first_pos_nth cols k : forall p, first_pos cols k = Some p -> nth_error cols p = Some k.
+Proof.
+  induction cols as [|c r IH]; simpl; intros p H; [discriminate|].
+  destruct (c =? k) eqn:E.
+  - inversion H. apply Z.eqb_eq in E. subst. reflexivity.
+  - destruct (first_pos r k) as [q|]; simpl in H; [|discriminate]. inversion H. simpl. apply IH. reflexivity.
+Qed.
+
+Lemma get_indexer_sel cols ks : forall ps, get_indexer cols ks = Some ps -> sel cols ps = Some ks.
+Proof.
+  induction ks as [|k r IH]; simpl; intros ps H.
+  - inversion H. reflexivity.
+  - destruct (first_pos cols k) as [p|] eqn:E1; [|discriminate].
+    destruct (get_indexer cols r) as [o|] eqn:E2; [|discriminate]. inversion H. simpl.
+    rewrite (first_pos_nth _ _ _ E1), (IH _ eq_refl). reflexivity.
+Qed.
+
+Lemma triples_labels {D T} (o : list (Z * D) * frame T) : map (fun t => fst (fst t)) (triples o) = map fst (fst o).
+Proof. unfold triples. rewrite map_map. apply map_ext. reflexivity. Qed.
+
+(* label keys in any order (tsdf[[labels]], tsdf.loc[labels]): output column i has label ks[i], and
+   is a column of the input with its own data and metadata row *)
+Theorem frame_get_labels_attach {D T} (o o' : tframe D T) ks :
+  frame_get_labels o ks = Some o' ->
+  map fst (fst o') = ks /\ incl (triples o') (triples o) /\ labels (snd o') = ks.
+Proof.
+  unfold frame_get_labels. destruct (get_indexer (map fst (fst o)) ks) as [ps|] eqn:E; [|discriminate].
+  intros H. destruct (frame_get_pos_attach _ _ _ H) as [H1 H2].
+  assert (Hk : map fst (fst o') = ks).
+  { pose proof (get_indexer_sel _ _ _ E) as Hs.
+    assert (H3 : sel (map (fun t => fst (fst t)) (triples o)) ps = Some (map (fun t => fst (fst t)) (triples o')))
+      by (rewrite sel_map, H1; reflexivity).
+    rewrite !triples_labels, Hs in H3. inversion H3. reflexivity. }
+  split; [exact Hk|]. split; [eapply sel_incl; exact H1|]. rewrite H2. exact Hk.
+Qed.
+
+Theorem frame_get_mask_attach {D T} (o o' : tframe D T) mask :
+  frame_get_mask o mask = Some o' -> sel (triples o) (mask_pos mask) = Some (triples o').
+Proof.
+  unfold frame_get_mask. destruct (length mask =? length (fst o))%nat; [|discriminate].
+  intros H. apply (frame_get_pos_attach _ _ _ H).
+Qed.
+
+(* groupby(...).get_group: exactly the columns whose OWN metadata row is in the group *)
+Theorem frame_get_group_attach {D T} (o o' : tframe D T) (p : T -> bool) :
+  wf_tframe o -> frame_get_group o p = Some o' ->
+  map fst (fst o') = map fst (filter (fun r => p (snd r)) (snd o))
+  /\ incl (triples o') (triples o)
+  /\ Forall (fun t => exists v, snd t = Some v /\ p v = true) (triples o').
+Proof.
+  intros [Hn Hl] H. unfold frame_get_group in H.
+  destruct (frame_get_labels_attach _ _ _ H) as (H1 & H2 & H3).
+  split; [exact H1|]. split; [exact H2|].
+  apply Forall_forall. intros [[l d] t] Hin.
+  assert (Hlk : In l (map fst (filter (fun r => p (snd r)) (snd o)))).
+  { rewrite <- H1. unfold triples in Hin. apply in_map_iff in Hin. destruct Hin as (c & Heq & Hc).
+    inversion Heq. subst. apply in_map. exact Hc. }
+  apply in_map_iff in Hlk. destruct Hlk as ([l' v] & Heq & Hf). simpl in Heq. subst l'.
+  apply filter_In in Hf. destruct Hf as [Hm Hp]. simpl in Hp.
+  specialize (H2 _ Hin). unfold triples in H2. apply in_map_iff in H2. destruct H2 as (c & Heq & Hc).
+  inversion Heq. subst. exists v. split; [|exact Hp]. simpl.
+  apply loc1_nodup_In; [rewrite Hl; exact Hn|exact Hm].
+Qed.
+
+(* restrict / get / arithmetic: labels and rows untouched *)
+Theorem frame_map_attach {D T} (f : D -> D) (o : tframe D T) :
+  labels (snd o) = map fst (fst o) ->
+  exists o', frame_map f o = Some o'
+    /\ triples o' = map (fun t => (fst (fst t), f (snd (fst t)), snd t)) (triples o).
+Proof.
+  intros Hl. unfold frame_map, mk_tframe. rewrite map_map. simpl.
+  replace (list_eqb (labels (snd o)) (map (fun x => fst x) (fst o))) with true
+    by (symmetry; apply list_eqb_eq; exact Hl).
+  eexists. split; [reflexivity|]. unfold triples. simpl. rewrite !map_map. reflexivity.
+Qed.
+
+(* ------------------------------ TsGroup ------------------------------ *)
+Definition wf_group {M T} (o : tgroup M T) : Prop :=
+  strict_incb (map fst (fst o)) = true /\ labels (snd o) = map fst (fst o).
+
+Lemma memZ_spec k l : memZ k l = true <-> In k l.
+Proof.
+  induction l as [|x r IH]; simpl; [split; [discriminate|tauto]|].
+  rewrite orb_true_iff, IH, Z.eqb_eq. tauto.
+Qed.
+
+Lemma nodupb_spec l : nodupb l = true -> NoDup l.
+Proof.
+  induction l as [|x r IH]; simpl; intros H; [constructor|].
+  apply andb_true_iff in H. destruct H as [H1 H2]. constructor; [|apply IH; exact H2].
+  intros Hin. apply memZ_spec in Hin. rewrite Hin in H1. discriminate.
+Qed.
+
+Lemma sorted_nodup_strict r : forall x, sorted_from x r -> ~ In x r -> NoDup r -> strict_from x r = true.
+Proof.
+  induction r as [|y r' IH]; simpl; intros x Hs Hn Hd; [reflexivity|].
+  destruct Hs as [H1 H2]. inversion Hd. subst. apply andb_true_iff. split; [|apply IH; assumption].
+  assert (x <> y) by (intros ->; apply Hn; left; reflexivity). lia.
+Qed.
+
+Lemma loc_In {T} (m : frame T) ks o k t : loc m ks = Some o -> In (k, t) o -> In k ks /\ loc1 m k = Some t.
+Proof.
+  revert o. induction ks as [|k0 r IH]; simpl; intros o H Hin.
+  - inversion H. subst. destruct Hin.
+  - destruct (loc1 m k0) eqn:E1; [|discriminate]. destruct (loc m r) eqn:E2; [|discriminate].
+    inversion H. subst. destruct Hin as [Hin|Hin].
+    + inversion Hin. subst. auto.
+    + destruct (IH _ eq_refl Hin). auto.
+Qed.
+
+Lemma mk_group_some {M T} (data : list (Z * M)) (m : frame T) o : mk_group data m = Some o ->
+  exists mem, o = (mem, m) /\ loc data (sortZ (map fst data)) = Some mem
+              /\ labels m = sortZ (map fst data) /\ NoDup (sortZ (map fst data)).
+Proof.
+  unfold mk_group, lookup_all. destruct (nodupb (sortZ (map fst data))) eqn:E0; [|discriminate].
+  destruct (loc data (sortZ (map fst data))) as [mem|] eqn:E1; [|discriminate].
+  destruct (list_eqb (labels m) (sortZ (map fst data))) eqn:E2; [|discriminate].
+  intros H. inversion H. exists mem. repeat split; auto; [apply list_eqb_eq; exact E2|apply nodupb_spec; exact E0].
+Qed.
+
+Lemma mk_group_wf {M T} (data : list (Z * M)) (m : frame T) o : mk_group data m = Some o -> wf_group o.
+Proof.
+  intros H. destruct (mk_group_some _ _ _ H) as (mem & -> & H1 & H2 & H3).
+  pose proof (loc_labels _ _ _ H1) as Hk. unfold labels in Hk.
+  split; simpl; [|rewrite H2; symmetry; exact Hk]. rewrite Hk.
+  pose proof (sortZ_sorted (map fst data)) as Hs.
+  destruct (sortZ (map fst data)) as [|x r]; [reflexivity|]. simpl in *.
+  inversion H3. subst. apply sorted_nodup_strict; assumption.
+Qed.
+
+(* g[[keys in any order]], g[mask], getby_*: the result's keys are the sorted requested keys, and
+   every (key, member, metadata row) of the result is one of the input *)
+Theorem group_get_keys_attach {M T} (o o' : tgroup M T) ks :
+  group_get_keys o ks = Some o' ->
+  map fst (fst o') = sortZ ks /\ incl (triples o') (triples o) /\ wf_group o'.
+Proof.
+  unfold group_get_keys, lookup_all. destruct (nodupb ks); [|discriminate].
+  destruct (loc (fst o) ks) as [d|] eqn:E1; [|discriminate].
+  destruct (loc (snd o) (sortZ ks)) as [m|] eqn:E2; [|discriminate]. intros H.
+  pose proof (mk_group_wf _ _ _ H) as Hwf.
+  destruct (mk_group_some _ _ _ H) as (mem & -> & H1 & H2 & H3).
+  pose proof (loc_labels _ _ _ E1) as Hd. unfold labels in Hd. rewrite Hd in *.
+  split; [exact (loc_labels _ _ _ H1)|]. split; [|exact Hwf].
+  intros x Hin. unfold triples in Hin. simpl in Hin. apply in_map_iff in Hin. destruct Hin as ([k v] & <- & Hc). simpl.
+  destruct (loc_In _ _ _ _ _ H1 Hc) as [Hk Hv].
+  destruct (loc_In _ _ _ _ _ E1 (loc1_In _ _ _ Hv)) as [_ Hv'].
+  rewrite (loc1_loc _ _ _ k E2 Hk).
+  unfold triples. apply in_map_iff. exists (k, v). split; [reflexivity|]. apply loc1_In. exact Hv'.
+Qed.
+
+Theorem group_get_mask_attach {M T} (o o' : tgroup M T) mask :
+  group_get_mask o mask = Some o' ->
+  exists ks, sel (map fst (fst o)) (mask_pos mask) = Some ks
+             /\ map fst (fst o') = sortZ ks /\ incl (triples o') (triples o).
+Proof.
+  unfold group_get_mask. destruct (length mask =? length (fst o))%nat; [|discriminate].
+  destruct (sel (map fst (fst o)) (mask_pos mask)) as [ks|]; [|discriminate]. intros H.
+  exists ks. destruct (group_get_keys_attach _ _ _ H) as (H1 & H2 & _). auto.
+Qed.
+
+Lemma loc1_app_l {T} (m1 m2 : frame T) k : In k (labels m1) -> loc1 (m1 ++ m2) k = loc1 m1 k.
+Proof.
+  induction m1 as [|[l t] r IH]; simpl; [tauto|]. intros [H|H].
+  - subst. rewrite Z.eqb_refl. reflexivity.
+  - destruct (l =? k); [reflexivity|]. apply IH. exact H.
+Qed.
+
+Lemma loc1_app_r {T} (m1 m2 : frame T) k : ~ In k (labels m1) -> loc1 (m1 ++ m2) k = loc1 m2 k.
+Proof.
+  induction m1 as [|[l t] r IH]; simpl; [reflexivity|]. intros H.
+  destruct (l =? k) eqn:E; [apply Z.eqb_eq in E; subst; tauto|]. apply IH. tauto.
+Qed.
+
+(* merge_group (keys kept): whenever it returns, every (key, member, row) of the result is one of
+   an operand *)
+Theorem group_merge_attach {M T} (a b o' : tgroup M T) :
+  labels (snd a) = map fst (fst a) -> labels (snd b) = map fst (fst b) ->
+  group_merge false a b = Some o' ->
+  map fst (fst o') = sortZ (map fst (fst a) ++ map fst (fst b))
+  /\ (forall x, In x (triples o') -> In x (triples a) \/ In x (triples b))
+  /\ wf_group o'.
+Proof.
+  intros La Lb. unfold group_merge.
+  destruct (existsb (fun k => memZ k (map fst (fst b))) (map fst (fst a))) eqn:E; [discriminate|]. intros H.
+  pose proof (mk_group_wf _ _ _ H) as Hwf.
+  destruct (mk_group_some _ _ _ H) as (mem & -> & H1 & H2 & H3).
+  rewrite map_app in *. split; [exact (loc_labels _ _ _ H1)|]. split; [|exact Hwf].
+  intros x Hin. unfold triples in Hin. simpl in Hin. apply in_map_iff in Hin. destruct Hin as ([k v] & <- & Hc). simpl.
+  destruct (loc_In _ _ _ _ _ H1 Hc) as [_ Hv]. apply loc1_In in Hv. apply in_app_or in Hv.
+  destruct Hv as [Hv|Hv].
+  - left. rewrite loc1_app_l by (rewrite La; apply in_map_iff; exists (k, v); auto).
+    unfold triples. apply in_map_iff. exists (k, v). auto.
+  - right. rewrite loc1_app_r.
+    + unfold triples. apply in_map_iff. exists (k, v). auto.
+    + rewrite La. intros Hka.
+      assert (Hkb : In k (map fst (fst b))) by (apply in_map_iff; exists (k, v); auto).
+      assert (existsb (fun k => memZ k (map fst (fst b))) (map fst (fst a)) = true).
+      { apply existsb_exists. exists k. split; [exact Hka|]. apply memZ_spec. exact Hkb. }
+      congruence.
+Qed.
+
+(* ... but it does not always return: groups with disjoint, interleaved keys cannot be merged with
+   their metadata (the concatenated metadata index is not sorted, set_info refuses it) *)
+Theorem group_merge_interleaved_refuted :
+  exists (a b : tgroup Z Z), wf_group a /\ wf_group b
+    /\ (forall k, In k (map fst (fst a)) -> ~ In k (map fst (fst b)))
+    /\ group_merge false a b = None.
+Proof.
+  exists ([(1, 10); (5, 50)], [(1, 100); (5, 500)]), ([(2, 20); (3, 30)], [(2, 200); (3, 300)]).
+  split; [split; reflexivity|]. split; [split; reflexivity|]. split; [|vm_compute; reflexivity].
+  simpl. intros k [H|[H|H]] [H'|[H'|H']]; lia.
+Qed.
+
+(* restrict / get / value_from on a group: keys and rows untouched *)
+Lemma strict_from_nodup l : forall lo, strict_from lo l = true -> ~ In lo l /\ NoDup l /\ Forall (fun x => lo < x) l.
+Proof.
+  induction l as [|x r IH]; simpl; intros lo H; [repeat split; auto; constructor|].
+  apply andb_true_iff in H. destruct H as [H1 H2]. destruct (IH _ H2) as (I1 & I2 & I3).
+  assert (Hlt : lo < x) by lia.
+  repeat split.
+  - intros [->|Hin]; [lia|]. rewrite Forall_forall in I3. specialize (I3 _ Hin). lia.
+  - constructor; assumption.
+  - constructor; [exact Hlt|]. eapply Forall_impl'; [|exact I3]. simpl. intros y. lia.
+Qed.
+
+Lemma strict_incb_nodup l : strict_incb l = true -> NoDup l.
+Proof.
+  destruct l as [|x r]; simpl; [constructor|]. intros H.
+  destruct (strict_from_nodup _ _ H) as (H1 & H2 & _). constructor; assumption.
+Qed.
+
+Lemma nodupb_complete l : NoDup l -> nodupb l = true.
+Proof.
+  induction 1 as [|x r Hn _ IH]; simpl; [reflexivity|]. rewrite IH, andb_true_r.
+  destruct (memZ x r) eqn:E; [apply memZ_spec in E; tauto|reflexivity].
+Qed.
+
+Lemma loc_self_suffix {T} (suf : frame T) : forall pre, NoDup (labels (pre ++ suf)) ->
+  loc (pre ++ suf) (labels suf) = Some suf.
+Proof.
+  induction suf as [|[l t] r IH]; intros pre Hn; simpl; [reflexivity|].
+  assert (Hnot : ~ In l (labels pre)).
+  { unfold labels in *. rewrite map_app in Hn. simpl in Hn. apply NoDup_remove_2 in Hn.
+    intros Hin. apply Hn. apply in_or_app. left. exact Hin. }
+  rewrite loc1_app_r by exact Hnot. simpl. rewrite Z.eqb_refl.
+  specialize (IH (pre ++ [(l, t)])). rewrite <- app_assoc in IH. simpl in IH. rewrite IH by exact Hn. reflexivity.
+Qed.
+
+Theorem group_map_attach {M T} (f : M -> M) (o : tgroup M T) :
+  wf_group o ->
+  exists o', group_map f o = Some o'
+    /\ triples o' = map (fun t => (fst (fst t), f (snd (fst t)), snd t)) (triples o).
+Proof.
+  intros [Hs Hl]. unfold group_map, mk_group, lookup_all.
+  set (d := map (fun c => (fst c, f (snd c))) (fst o)).
+  assert (Hk : map fst d = map fst (fst o)) by (unfold d; rewrite map_map; reflexivity).
+  rewrite Hk, (sortedZ_sortZ_id _ (strict_incb_sorted _ Hs)).
+  pose proof (strict_incb_nodup _ Hs) as Hn. rewrite (nodupb_complete _ Hn).
+  assert (Hd : loc d (map fst (fst o)) = Some d).
+  { rewrite <- Hk. apply (loc_self_suffix d []). simpl. unfold labels. rewrite Hk. exact Hn. }
+  rewrite Hd. replace (list_eqb (labels (snd o)) (map fst (fst o))) with true by (symmetry; apply list_eqb_eq; exact Hl).
+  eexists. split; [reflexivity|]. unfold triples, d. simpl. rewrite !map_map. reflexivity.
+Qed.
+
+(* ================================================================== *)
+(* 7. IntervalSet(DataFrame): rows are re-ordered whole, so pairs survive                         *)
+Lemma insert_row_perm {T} (x : Z * Z * T) l : Permutation (x :: l) (insert_row x l).
+Proof.
+  induction l as [|y r IH]; simpl; [apply Permutation_refl|].
+  destruct (fst (fst x) <? fst (fst y)); [apply Permutation_refl|].
+  eapply perm_trans; [apply perm_swap|]. apply perm_skip. exact IH.
+Qed.
+
+Lemma sort_rows_perm {T} (l : list (Z * Z * T)) : Permutation l (sort_rows l).
+Proof.
+  unfold sort_rows. rewrite <- (app_nil_r l) at 1. generalize (@nil (Z * Z * T)) as acc.
+  induction l as [|x r IH]; intros acc; simpl; [apply Permutation_refl|].
+  eapply perm_trans; [|apply IH].
+  eapply perm_trans; [apply Permutation_middle|]. apply Permutation_app_head. apply insert_row_perm.
+Qed.
+
+Theorem mk_miset_df_kept {T} (l : list (Z * Z * T)) out m :
+  mk_miset_df l = Kept out m ->
+  exists l1, Permutation l l1 /\ out = trim_touch (map fst l1) /\ m = range_frame (map snd l1).
+Proof.
+  unfold mk_miset_df. intros H. apply mk_miset_kept in H. destruct H as (H1 & H2 & _).
+  eexists. split; [|split; [exact H2|exact H1]].
+  destruct (decreases _); [apply sort_rows_perm|apply Permutation_refl].
 Qed.
